@@ -39,16 +39,6 @@ theorem C12_detached_leaves_nothing (excluded : Nat → Bool) (inherited : Vars)
       none :: runPerProcess excluded inherited probes rest f := by
   simp [runPerProcess]
 
-/-- a history is benign for the variable carrier: it creates no read-only variable, never unsets a
-variable that the processes inherit from scrut's own environment, and touches no excluded name -/
-def Benign (excluded : Nat → Bool) (inherited : Vars) (hs : List (Action × Bool)) : Prop :=
-  ∀ p ∈ hs, match p.1 with
-    | .readonly _ _ => False
-    | .unset n => lookup inherited n = none ∧ excluded n = false
-    | .assign n _ => excluded n = false
-    | .export n _ => excluded n = false
-    | .other => True
-
 /-- **C12** (variables, partial): for benign histories every test case observes exactly the
 variables a single session would hold. FULL STRENGTH (all histories) is false today, see the two
 witnesses. -/
